@@ -93,7 +93,38 @@ macro_rules! scenario {
     }};
 }
 
+/// C10: a runtime borrow guard LEAKED with `mem::forget` (safe code) leaves its column flagged
+/// as borrowed forever; operations that take `&mut self` must not care (they own the cells), and
+/// whatever panics must leave every entity whole or absent.
+fn leaked_guard() {
+    reg_reset();
+    let r = guard(|| {
+        let mut w = Ws::new();
+        w.s_4.create((Ca::make(1, 1), Da::make(2, 2)));
+        w.s_4.create((Ca::make(3, 1), Da::make(4, 2)));
+        std::mem::forget(w.s_4.borrow_slice_mut::<Da>());
+        let before = w.s_4.len();
+        let made = guard(|| w.s_4.create((Ca::make(5, 1), Da::make(6, 2)))).is_ok();
+        let after = w.s_4.len();
+        let rows = w.s_4.iter().count();
+        let ents = w.s_4.entities().len();
+        // all-or-nothing
+        let whole = (made && after == before + 1 && rows == after && ents == after) || (!made && after == before && rows == before && ents == before);
+        let removed = guard(|| w.s_4.entities().first().copied().map(|e| w.s_4.destroy(e).is_some())).unwrap_or(None);
+        let cloned = guard(|| w.clone()).is_ok();
+        (made, whole, removed, cloned, w.s_4.len())
+    });
+    match r {
+        Ok((made, whole, removed, cloned, len)) => {
+            let errs = REG.with(|r| r.borrow().errors.len());
+            println!("L1 create_ok={} all_or_nothing={} destroy_ok={} clone_refused={} len={} errors={}", made as u8, whole as u8, (removed == Some(true)) as u8, (!cloned) as u8, len, errs)
+        }
+        Err(c) => println!("L1 panic {}", c),
+    }
+}
+
 pub fn run() {
+    leaked_guard();
     scenario!("S1", S1, s_1, |t: u64| (Ca::make(t, 1), P1(t)), 1);
     scenario!("S2", S2, s_2, |t: u64| (P1(t), Ca::make(t, 1)), 1);
     scenario!("S3", S3, s_3, |t: u64| (P1(t), Ca::make(t, 1), Cz::make(0, 0)), 1);
